@@ -53,6 +53,9 @@ fn main() {
          rip_table (exhaustive): 54 commands of the level-0/1/9 tables x {fresh, state-setting preamble} x every parameter string over {0,1,Z} of length 0..=6 (thorough: 0..=8), 9 periodic patterns for every longer length up to 24, and for the next two even lengths (8 and 10; thorough 10 and 12) all strings of two-digit fields over {00,0Z,ZZ}. \
          igs_table (exhaustive): 46 letters + unknown + '&' x {fresh, preamble} x 0..=12 parameters x value patterns over {0,1,3,8,200,20000} (uniform, selector+uniform, ramps, point counts, one or two large positions). \
          igs_loops (exhaustive): '&' over every letter x (4 small ranges incl. step 0 x 7 parameter styles (x, y, +n, -n, !n, mixed) + range 0..20001 step 20000 x {x, y}) x 3 declared counts x {fresh, preamble}. \
+         rip_pairs / igs_pairs (exhaustive): every state-setting command with each of its selector values (fonts x direction x size, write modes, line and fill styles, button styles x label orientation, \
+         viewports in / across / outside the canvas, palettes, saved images; IGS: fill attributes, pens incl. numbers > 15, marker and line types, drawing modes, text effects, resolution, initialise, grabbed blocks) \
+         followed by every drawing command with ordinary in-canvas parameters. \
          rip_random / igs_random: 1..=10 segments, fields from {0,1,small,canvas edges,max,random}, truncated / over-long / punctuated / lower-case parameter lists, continuation lines, text variables, \
          unknown commands, plain text and ANSI between commands, chained and line-separated commands, loops with chain-gang targets, signed and empty IGS parameters up to 99999. \
          Oracles: no panic (key = panic signature); no abort (abort|signal|family); one command <= 0.5 s CPU per 64 bytes (work.cpu|family; a segment is killed after 0.8 s CPU); no sleeping \
@@ -89,6 +92,18 @@ fn main() {
     let mult = spread_multiplier(total);
     let k3 = known.clone();
     eng.enumerated(iso("igs_loops", 0, 0).exhaustive(true), total, move |i| igs::loops_case(i * mult % total), move |c| igs::check(c, &k3));
+
+    // ---- state x drawing command pairs
+    let rp = Arc::new(rip::Pairs::new());
+    let total = rp.total();
+    let mult = spread_multiplier(total);
+    let k6 = known.clone();
+    eng.enumerated(iso("rip_pairs", 0, 0).exhaustive(true), total, move |i| rp.case(i * mult % total), move |c| rip::check(c, &k6));
+    let ip = Arc::new(igs::Pairs::new());
+    let total = ip.total();
+    let mult = spread_multiplier(total);
+    let k7 = known.clone();
+    eng.enumerated(iso("igs_pairs", 0, 0).exhaustive(true), total, move |i| ip.case(i * mult % total), move |c| igs::check(c, &k7));
 
     // ---- random streams (state carries over from command to command)
     let k4 = known.clone();
